@@ -83,6 +83,12 @@ def run(ctx):
         sx.append(g.program(rng.range(2, 5)))
         for k, v in g.hist.items():
             hist[k] = hist.get(k, 0) + v
+    # every hint scenario form on its own as well (inside a random program an earlier statement often fails first, and the rarer forms hardly ever run)
+    for k in range(300 if thorough else 60):
+        g = progs.Gen(rng.fork(), feat=dict(evals=True, refassign=True))
+        sx.append("(" + g.hint_scenario(form=k % 10) + ")")
+        for kk, v in g.hist.items():
+            hist["alone:" + kk] = hist.get("alone:" + kk, 0) + v
     ctx.cov["constructs"] = hist
     found = 0
     with ctx.timer("model"):
